@@ -168,7 +168,7 @@ func (mb *mbox) writeIndex() error {
 		if err != nil {
 			return err
 		}
-		verifPoint("index.create", mb.indexPath)
+		verifPoint("index.create", tmpPath)
 		writer := bufio.NewWriter(file)
 		// Write each message and then flush
 		enc := gob.NewEncoder(writer)
@@ -182,21 +182,22 @@ func (mb *mbox) writeIndex() error {
 				return err
 			}
 		}
-		verifPoint("index.encoded", mb.indexPath)
+		verifPoint("index.encoded", tmpPath)
 		if err := writer.Flush(); err != nil {
 			_ = file.Close()
 			return err
 		}
-		verifPoint("index.flushed", mb.indexPath)
+		verifPoint("index.flushed", tmpPath)
 		if err := file.Close(); err != nil {
 			log.Error().Str("module", "storage").Str("path", mb.indexPath).Err(err).
 				Msg("Failed to close")
 			return err
 		}
-		verifPoint("index.closed", mb.indexPath)
+		verifPoint("index.closed", tmpPath)
 		if err := os.Rename(tmpPath, mb.indexPath); err != nil {
 			return err
 		}
+		verifPoint("index.renamed", mb.indexPath)
 	} else {
 		// No messages, delete index+maildir
 		log.Debug().Str("module", "storage").Str("path", mb.path).Msg("Removing mailbox")
@@ -225,6 +226,7 @@ func (mb *mbox) removeDir() error {
 	if err := os.Remove(mb.indexPath); err != nil && !os.IsNotExist(err) {
 		return err
 	}
+	verifPoint("rmdir.index.removed", mb.indexPath)
 	verifPoint("rmdir.all.before", mb.path)
 	if err := os.RemoveAll(mb.path); err != nil {
 		return err
